@@ -90,3 +90,17 @@ impl rssl_text::CompileError for ExportError {
         }
     }
 }
+
+/// Verification hook (only with `--cfg trark_rssl_verif`): the syntax tree handed to the formatter
+///
+/// Runs the same passes as [export_to_msl] for modules without a mesh stage
+#[cfg(trark_rssl_verif)]
+pub fn verif_generate_ast(module: &rssl_ir::Module) -> Result<rssl_ast::Module, ExportError> {
+    let mut module = module.clone();
+    rssl_ir::simplify_cbuffers(&mut module);
+    simplify_resource_subscript::simplify_resource_subscript(&mut module);
+    match generator::generate_module(&mut module, None) {
+        Ok(output) => Ok(output.ast_module),
+        Err(err) => Err(ExportError::GenerateError(err)),
+    }
+}
